@@ -6,6 +6,8 @@ import (
 	"fmt"
 	"io"
 	"log"
+	"net"
+	"strings"
 	"sync"
 	"testing"
 	"time"
@@ -298,21 +300,38 @@ func runOnce(c Case) result {
 	return result{}
 }
 
+// localEndpoints: what net.Addr.String() of the transport's local side prints - single-homed
+// TCP/TLS endpoints and the multi-homed form of SCTP associations ("a/b:port", IPv6 addresses in
+// brackets, link-local ones with their zone). Loopback addresses only occur alone.
+var localEndpoints = []string{"10.1.2.3:3868", "10.1.2.3:3868", "127.0.0.1:3868", "[2001:db8::1]:3868", "[::1]:3868",
+	"10.0.0.3/10.0.0.4:3868", "[fe80::1%eth0]:3868", "[fe80::1%eth0]/10.0.0.3:3868", "10.0.0.3/[fe80::1%eth0]:3868",
+	"10.0.0.3/[2001:db8::2]/192.0.2.77:3868", "[fe80::2%lo0]/[2001:db8::5]/10.0.0.9:5868"}
+
+// wantIPs: the configured addresses, else the addresses of the local endpoint in the order the
+// endpoint lists them (written independently of the library: port after the last colon,
+// addresses separated by '/', brackets and %zone removed).
 func (c Case) wantIPs() [][]byte {
 	if len(c.ConfiguredIPs) > 0 {
 		return c.ConfiguredIPs
 	}
-	switch c.LocalAddr {
-	case "10.1.2.3:3868":
-		return [][]byte{{10, 1, 2, 3}}
-	case "127.0.0.1:3868":
-		return [][]byte{{127, 0, 0, 1}}
-	case "[2001:db8::1]:3868":
-		return [][]byte{{0x20, 0x01, 0x0d, 0xb8, 0, 0, 0, 0, 0, 0, 0, 0, 0, 0, 0, 1}}
-	case "[::1]:3868":
-		return [][]byte{{0, 0, 0, 0, 0, 0, 0, 0, 0, 0, 0, 0, 0, 0, 0, 1}}
+	hosts := c.LocalAddr[:strings.LastIndexByte(c.LocalAddr, ':')]
+	var out [][]byte
+	for _, h := range strings.Split(hosts, "/") {
+		h = strings.Trim(h, "[]")
+		if i := strings.IndexByte(h, '%'); i >= 0 {
+			h = h[:i]
+		}
+		ip := net.ParseIP(h)
+		if ip == nil {
+			continue
+		}
+		if v4 := ip.To4(); v4 != nil {
+			out = append(out, []byte(v4))
+		} else {
+			out = append(out, []byte(ip.To16()))
+		}
 	}
-	return nil
+	return out
 }
 
 // checkCER: the request carries the configured identity, the host addresses and every advertised application.
@@ -351,7 +370,7 @@ func (c Case) checkCER(b []byte) *ev.Failure {
 	gotAddr := find(257)
 	if len(gotAddr) != len(wantAddr) {
 		sig := "cer-host-ip"
-		if len(c.ConfiguredIPs) == 0 && c.LocalAddr[0] == '[' {
+		if len(c.ConfiguredIPs) == 0 && c.LocalAddr[0] == '[' && len(gotAddr) == 0 {
 			sig = "cer-no-host-ip-ipv6-endpoint"
 		}
 		return ev.Failf(sig, "CER carries %d Host-IP-Address AVPs % x, expected %d: % x (configured %d, local endpoint %s)", len(gotAddr), gotAddr, len(wantAddr), wantAddr, len(c.ConfiguredIPs), c.LocalAddr)
@@ -418,7 +437,7 @@ var timingDiscards int64
 func genCase(t *rapid.T) Case {
 	c := Case{MaxRetransmits: rapid.IntRange(0, 4).Draw(t, "max-retransmits"), IntervalMs: rapid.IntRange(40, 70).Draw(t, "interval-ms"),
 		Host: rapid.SampledFrom([]string{"client.example", "c", "a.b.c.d.e"}).Draw(t, "host"), Realm: rapid.SampledFrom([]string{"example", "r"}).Draw(t, "realm"),
-		LocalAddr: rapid.SampledFrom([]string{"10.1.2.3:3868", "10.1.2.3:3868", "127.0.0.1:3868", "[2001:db8::1]:3868", "[::1]:3868"}).Draw(t, "local")}
+		LocalAddr: rapid.SampledFrom(localEndpoints).Draw(t, "local")}
 	switch rapid.IntRange(0, 3).Draw(t, "configured-ips") {
 	case 0:
 		c.ConfiguredIPs = [][]byte{{192, 0, 2, 1}}
@@ -494,7 +513,7 @@ func classify(c Case) (bool, []string) {
 
 var prop = ev.Register(&ev.Prop[Case]{
 	ID: "C12", Name: "handshake",
-	Rule: "client settings (MaxRetransmits 0..4, RetransmitInterval 40..70 ms, identity, configured or endpoint-derived host addresses incl. IPv6 endpoints, advertised auth / acct / vendor-specific applications that the local dictionary supports) x peer script per received transmission {silence, success CEA sharing an advertised application, failing Result-Code, CEA without Result-Code / Origin-Host, success without / with only unknown applications, disconnect}, reacting inside the transport's Write; after a successful handshake 0..5 extras {duplicate success CEA, late failing CEA, malformed CEA, application answers}; non-trivial = a retransmission, a failure outcome, or an extra CEA after success; a mismatch that a scheduling delay could explain must reproduce 3 times",
+	Rule: "client settings (MaxRetransmits 0..4, RetransmitInterval 40..70 ms, identity, configured or endpoint-derived host addresses incl. IPv6, zoned link-local and multi-homed (SCTP style a/b:port) endpoints, advertised auth / acct / vendor-specific applications that the local dictionary supports) x peer script per received transmission {silence, success CEA sharing an advertised application, failing Result-Code, CEA without Result-Code / Origin-Host, success without / with only unknown applications, disconnect}, reacting inside the transport's Write; after a successful handshake 0..5 extras {duplicate success CEA, late failing CEA, malformed CEA, application answers}; non-trivial = a retransmission, a failure outcome, or an extra CEA after success; a mismatch that a scheduling delay could explain must reproduce 3 times",
 	Gen:  genCase, Run: runCase, Classify: classify, Attempts: 2,
 })
 
@@ -527,7 +546,7 @@ func TestC12Canonical(t *testing.T) {
 				return
 			}
 		}
-		for _, l := range []string{"[2001:db8::1]:3868", "[::1]:3868", "127.0.0.1:3868"} {
+		for _, l := range localEndpoints[2:] {
 			c := base
 			c.LocalAddr = l
 			c.Script = []string{success}
